@@ -276,6 +276,22 @@ def r06_5(ctx, rep):
            path=cfg.describe(bad) if bad else "")
 
 
+@SPEC.rule(
+    "R06.6",
+    "flatten reads, never writes, the tree it is given (the ownership analysis of R05.1 evaluated for this property): an "
+    "edit API call after a flatten — on the tree or on any copy of it — must find the tree as the parser left it "
+    "(symbol tables keyed by the symbols' names, import tables unchanged)",
+)
+def r06_6(ctx, rep):
+    from ..origins import analyse_flatten
+
+    R = "R06.6"
+    res = analyse_flatten(ctx, R)
+    for f in res.findings:
+        rep.ob(R, f["site"], f["key"], f["ok"], f["msg"], path=f.get("path", ""))
+    rep.require_instances(R, 2, "ownership sources")
+
+
 # -- seeded variants ---------------------------------------------------------
 from ._mut import delete_stmt_where, find_def, replace_in_func  # noqa: E402
 
